@@ -130,6 +130,9 @@ impl Property for C16 {
             let _ = src.below(1);
             src.mix_external(h);
         }
+        if a.mixed {
+            return Verdict::Discard("different metric types registered under one name (hash-order dependent, C14's known finding)");
+        }
         if a.dump != a2.dump {
             return Verdict::Discard("nondeterministic in the protobuf build");
         }
